@@ -703,6 +703,50 @@ def l21(ctx, rid):
     c15.a13(ctx, rid)
 
 
+def l22(ctx, rid):
+    """`requested index dumps still complete`: the worker never aborts its own background tasks (JoinHandle::abort) - the dump
+    pass it would cut is the only thing that syncs and indexes the closed blobs it has not reached yet, and an aborted dump
+    drops the in-memory index it had taken out (C11.X3)"""
+    prog = ctx.prog
+    n = 0
+    bad = None
+    for f in prog.fns.values():
+        if f.file not in (WORKER_FILE, 'src/storage/observer.rs'):
+            continue
+        n += 1
+        for c in f.calls:
+            if c.bb in f.reachable() and c.name in ('abort', 'abort_handle', 'abort_all', 'shutdown_background', 'shutdown_timeout') and ('JoinHandle' in c.path or 'AbortHandle' in c.path or 'JoinSet' in c.path or 'Runtime' in c.path):
+                bad = c
+    if n < 15:
+        raise core.AnchorLost('functions in the observer modules: %d' % n)
+    if bad:
+        ctx.bad(rid, 'worker-never-aborts-tasks', bad.where(), 'a background task of the worker is cancelled with `%s`: the closed blobs the dump pass had not reached are neither synced nor indexed, and the index it was dumping is lost from memory' % bad.name)
+    else:
+        ctx.ok(rid, 'worker-never-aborts-tasks', '', 'no task abort in %d observer functions' % n, nontrivial=False, queries=n)
+
+
+def l23(ctx, rid):
+    """the worker computes its deadlines without arithmetic that panics on ordinary values: no `Duration - Duration` /
+    `Instant - Duration` subtraction in the worker module (an overdue deferred event makes the elapsed time exceed the bound and
+    the subtraction panics inside the worker task - saturating_sub / checked_sub / comparisons are the non-panicking forms)"""
+    prog = ctx.prog
+    n = 0
+    bad = None
+    for f in prog.fns.values():
+        if f.file != WORKER_FILE:
+            continue
+        n += 1
+        for c in f.calls:
+            if c.bb in f.reachable() and c.name in ('sub', 'sub_assign') and ('std::time::Duration' in c.full or 'Instant' in c.full) and (c.trait or '').startswith('std::ops::Sub'):
+                bad = c
+    if n < 10:
+        raise core.AnchorLost('functions in the worker module: %d' % n)
+    if bad:
+        ctx.bad(rid, 'no-panicking-time-subtraction', bad.where(), 'the worker subtracts times with the panicking operator (`%s`): once the subtrahend exceeds the minuend (an overdue deferred dump) the worker task panics and background maintenance stops' % bad.full[:80])
+    else:
+        ctx.ok(rid, 'no-panicking-time-subtraction', '', 'no panicking time subtraction in %d worker functions' % n, nontrivial=False, queries=n)
+
+
 RULES = [
     Rule('C13.L1', 'the worker loop is only left through the Stop arm (recv() == None) and contains no reachable panic written in the worker module', l1, 4),
     Rule('C13.L3', 'one channel, Sender never cloned, stored only in the Running state, dropped before the worker handle is awaited', l3, 4),
@@ -722,6 +766,8 @@ RULES = [
     Rule('C13.L19', 'push of the closed-blob tree counts slots, never occupied children (C10.B21 instance)', l19, 1),
     Rule('C13.L20', 'the worker takes one request at a time (no batch receive whose handling loop can drop requests)', l20, 1),
     Rule('C13.L21', 'the allocation counter of a reloaded index is seeded from vector capacities (C15.A13 instance)', l21, 1),
+    Rule('C13.L22', 'the worker never aborts its background tasks', l22, 1),
+    Rule('C13.L23', 'the worker performs no panicking subtraction of times', l23, 1),
     Rule('C13.L15', 'the blob id counter is never given back: a creation failure bound to one file name cannot repeat for ever (C07.H6 instances)', l15, 3),
     Rule('C13.L8', 'request-pending / in-progress flags are released on every path of their handler (C12.S8 instances)', l8, 1),
 ]
